@@ -218,6 +218,19 @@ Definition hist_case lnc lnd tI tJ specs (ops : list hop) (qs : list query) (exp
   && list_eqb pyvs_approxb (map (fun c => map (hcn_now (fst s) c) cnqs) (snd s)) cn_expected
   && pyvs_approxb (map hhv_now (snd s)) hv_expected.
 
+(* ---- the constructor: Chemical(ID, phase_ref=, Hvap=, default=, method=) on one chemical with handle set [cn] ---- *)
+Definition qctor := ctor_args qcc (option Q) qsc.
+Definition ctor_case lnc lnd tI tJ (spec : phase * qsc * option Q * qcc) (a : qctor) (qs : list query) (expected : list (pyv Q))
+           (cnqs : list phase) (cn_expected : list (pyv Q)) (hv_expected : pyv Q) : bool :=
+  let '(p, sc, hv, cn) := spec in
+  match construct qcc (option Q) qsc d0cc a [cn] CnHandle p sc hv 0 with
+  | (h, Some c) =>
+      pyvs_approxb (map (hobserve lnc lnd tI tJ h c) qs) expected
+      && pyvs_approxb (map (hcn_now h c) cnqs) cn_expected
+      && pyvs_approxb [hhv_now c] [hv_expected]
+  | (_, None) => false        (* H and S would be None *)
+  end.
+
 (* ---- property packages: mixture of package k evaluated with the functors its mixture models hold ---- *)
 Inductive pobs : Type :=
 | PoH (k : nat) (ph : phase) (mol : list Q) (T P : option Q)
